@@ -64,7 +64,9 @@ def run(chk):
     # the users of the cache (routing, scans in both directions, re-establishment, splits / merges / moves): after each
     # step the client's cache holds regions exactly as the cluster defined them, none intersecting
     wd2 = vlib.scratch("verif-c08c-")
-    t2 = vlib.go_test("", "^TestVerifC08Client$", env=dict(VERIF_OUT=wd2, VERIF_SEED=str(chk.seed)), timeout=900, race=True)
+    # (the last class of this driver runs the cache under concurrent users: there a race report between two accesses of the client
+    # is the verdict - no re-run without the detector)
+    t2 = vlib.go_test("", "^TestVerifC08Client$", env=dict(VERIF_OUT=wd2, VERIF_SEED=str(chk.seed)), timeout=900, race=True, race_rerun=False)
     rf2 = os.path.join(wd2, "c08c_result.json")
     if not os.path.exists(rf2) or t2["rc"] != 0:
         v = vlib.classify_panic(t2["out"]) or vlib.classify_race(t2["out"])
